@@ -69,7 +69,7 @@ def rand_units(rng, els=None):
     if els is not None:
         for k, v in zip(UKEYS, UVAR):           # often ask for the very unit the first sample of some element is recorded in
             if rng.random() < 0.5:
-                cands = [e.time_variables[v][0].unit for e in els if v in e.time_variables and e.time_variables[v]]
+                cands = [e.time_variables[v][0].unit for e in els if v in e.time_variables and e.time_variables[v] and hasattr(e.time_variables[v][0], 'unit')]
                 if cands:
                     us[k] = rng.choice(cands)
     return us
@@ -79,6 +79,8 @@ def crec(e):
     def smp(x):
         if isinstance(x, U.UnitBase):
             return f'(@SQ FX {scen.cq([type(x).__name__, float(x.value), x.unit])})'
+        if not isinstance(x, (int, float)) or isinstance(x, bool):
+            return f'(@SN FX {lib.flit(float("nan"))})'       # not a quantity and not a number (e.g. None): has no .to(), like a bare number
         return f'(@SN FX {lib.flit(x)})'
     vars_ = scen.clist([f'({lib.coq_str(k)}, {scen.clist([smp(x) for x in v])})' for k, v in e.time_variables.items()])
     b = lambda x: 'true' if x else 'false'  # noqa
